@@ -77,6 +77,7 @@ type Exec struct {
 	specHook   func(term, famSym string)
 	curBinders []string
 	vacSeq     int
+	loopEntry  map[int]*State
 	macros     map[string]bool
 	loopEffects map[*ssa.BasicBlock]*effects
 	entryMods  *modSet
@@ -95,7 +96,7 @@ func newExec(w *World, fn *ssa.Function, con *Contract) *Exec {
 		globals: map[string]Val{}, fams: map[string]famSig{}, written: map[string]bool{}, closures: map[string]ClosureV{}, funcvals: map[string]FuncV{},
 		localAddrs: map[string]LocalAddr{}, strlits: map[string]string{}, callStats: map[string]map[string]int{}, usedContracts: map[string]bool{},
 		lets: map[string]TV{}, stepBudget: 4000000, pathLimit: 6000,
-		declOwner: map[string]string{}, decAtHead: map[*ssa.BasicBlock]string{}, famBirth: map[string]string{}, epochAlloc: map[int]string{0: "|$alloc@e0|"}, macros: map[string]bool{}, loopEffects: map[*ssa.BasicBlock]*effects{}, loopSets: map[*ssa.BasicBlock]map[*ssa.BasicBlock]bool{}, usedSpecFuncs: map[string]bool{}, namedPreds: map[string]string{}}
+		declOwner: map[string]string{}, decAtHead: map[*ssa.BasicBlock]string{}, loopEntry: map[int]*State{}, famBirth: map[string]string{}, epochAlloc: map[int]string{0: "|$alloc@e0|"}, macros: map[string]bool{}, loopEffects: map[*ssa.BasicBlock]*effects{}, loopSets: map[*ssa.BasicBlock]map[*ssa.BasicBlock]bool{}, usedSpecFuncs: map[string]bool{}, namedPreds: map[string]string{}}
 	e.decl("(declare-sort Ref 0)")
 	e.decl("(declare-const null Ref)")
 	return e
@@ -619,6 +620,11 @@ func (e *Exec) blockFrom(s *State, b *ssa.BasicBlock, from int, depth int) {
 				et := x.X.Type().Underlying().(*types.Pointer).Elem().Underlying().(*types.Array).Elem()
 				e.safety("index", s, fmt.Sprintf("(and (<= 0 %s) (< %s %d))", idx, idx, bv.Len))
 				s.regs[x] = ElemAddr{Arr: bv.Arr, Idx: idx, Key: "arr_" + sanitize(et.String())}
+			case HeapAddr:
+				// fixed-size array field of a heap object: elements in the family <field>[] : (Ref Int) -> elem
+				at := x.X.Type().Underlying().(*types.Pointer).Elem().Underlying().(*types.Array)
+				e.safety("index", s, fmt.Sprintf("(and (<= 0 %s) (< %s %d))", idx, idx, at.Len()))
+				s.regs[x] = ElemAddr{Arr: bv.Ref, Idx: idx, Key: bv.Key + "[]"}
 			case LocalAddr:
 				e.abort("outside subset: index into a local fixed-size array value")
 			default:
